@@ -154,7 +154,10 @@ def run_property(pid, tier, seed):
             w, g = cov.setdefault((u.file, u.qual), (set(), set()))
             w.update(r['want_lines'])
             g.update(r['reached_lines'])
+    undecided_fns = {(u.file, u.qual) for u, r in unit_results if r['status'] != 'ok'}
     for (f_, q_), (w, g) in cov.items():
+        if (f_, q_) in undecided_fns:
+            continue        # a variant of this function did not run to the end: its coverage is unknown, the unit is reported undecided
         miss = sorted(w - g)
         if miss:
             engine_errors.append(f'vacuity: statements of {q_} at lines {miss} lie on no feasible path of any unit (dead under the contract?)')
@@ -305,8 +308,9 @@ def run_property(pid, tier, seed):
         'violations': len(violations) + len(dyn_viol),
     }
     ev['coverage']['runtime_scenarios'] = battery
-    os.makedirs(os.path.join(HERE, 'evidence'), exist_ok=True)
-    json.dump(ev, open(os.path.join(HERE, 'evidence', f'{pid}.json'), 'w'), indent=1, default=str)
+    evdir = os.environ.get('PYVC_EVIDENCE_DIR') or os.path.join(HERE, 'evidence')      # trial runs against scratch trees keep the committed evidence untouched
+    os.makedirs(evdir, exist_ok=True)
+    json.dump(ev, open(os.path.join(evdir, f'{pid}.json'), 'w'), indent=1, default=str)
 
     # ---- report
     print(f'[{pid}] tier={tier} units={len(units)} obligations={len(asserts)} discharged={ev["coverage"]["discharged"]} '
